@@ -13,7 +13,7 @@ pub struct Args {
 pub fn parse_args(args: &[String]) -> Args {
     let mut seed = 1u64;
     let mut tier = "quick".to_string();
-    let mut out = PathBuf::from("/verif/.cache/run");
+    let mut out = verif_root().join(".cache/run");
     let mut n = None;
     let mut rest = Vec::new();
     let mut i = 0;
@@ -101,15 +101,26 @@ pub fn quiet_panics() {
 }
 
 pub fn scratch_dir(tag: &str) -> PathBuf {
-    let base = std::env::var("GV_SCRATCH").unwrap_or_else(|_| "/verif/.cache/scratch".to_string());
+    let base = std::env::var("GV_SCRATCH")
+        .unwrap_or_else(|_| verif_root().join(".cache/scratch").to_string_lossy().to_string());
     let p = PathBuf::from(base).join(format!("{}-{}", tag, std::process::id()));
     let _ = std::fs::create_dir_all(&p);
     p
 }
 
+/// root of the goml checkout under test (`GV_REPO`, default /repo)
+pub fn repo_root() -> PathBuf {
+    PathBuf::from(std::env::var("GV_REPO").unwrap_or_else(|_| "/repo".to_string()))
+}
+
+/// root of the verification tree (`GV_VERIF`, default /verif)
+pub fn verif_root() -> PathBuf {
+    PathBuf::from(std::env::var("GV_VERIF").unwrap_or_else(|_| "/verif".to_string()))
+}
+
 pub fn corpus_pipeline_dirs() -> Vec<PathBuf> {
-    let root = Path::new("/repo/crates/compiler/src/tests/pipeline");
-    let mut v: Vec<PathBuf> = std::fs::read_dir(root)
+    let root = repo_root().join("crates/compiler/src/tests/pipeline");
+    let mut v: Vec<PathBuf> = std::fs::read_dir(&root)
         .map(|rd| rd.filter_map(|e| e.ok().map(|e| e.path())).filter(|p| p.join("main.gom").exists()).collect())
         .unwrap_or_default();
     v.sort();
